@@ -1,5 +1,6 @@
 import GoLevel.Proofs.LSMCompactView
 import GoLevel.Proofs.LSMOverlap
+import GoLevel.Proofs.PickCut
 /-!
 # Property C06 — the live table set is always a well-formed LSM tree
 
@@ -262,6 +263,191 @@ theorem getOverlapsL0_spec {c : UCmp} (hl : LawfulUCmp c) (tables : Level) (fuel
 
 example : getOverlapsL0 bytewise [tA, tB] 5 [2] [2] = [tA, tB] := by decide
 
+/-! ## 12. the inputs the code chooses (`session_compaction.go`: `pickCompaction`, `getCompactionRange`, `newCompaction`, `expand`)
+
+Model: `GoLevel/Model/Pick.lean`; proofs: `GoLevel/Proofs/PickOverlap.lean`, `PickExpand.lean`, `PickInputs.lean`.
+The input clauses of `CompactionOK` — so far checked on every real compaction by the trace validator — are
+derived from the selection logic. -/
+
+/-- **`compaction_inputs_closed`** (P1).  On a well-formed version, `newCompaction` applied to any non-empty
+sublist `t0` of level `src` does not panic, and the sets `expand` settles on — also after its "grow the source
+level" step — satisfy the input conditions of `CompactionOK` for the range `[imin.ukey, imax.ukey]` it
+records: the level-`src` inputs lie in the level, contain `t0` and are bounded by the range (which is their
+`getRange`); the level-`src+1` inputs are **exactly** the tables of that level whose user-key range meets it (no
+overlapping table is left behind); for `src = 0` no level-0 table outside the inputs meets it. -/
+theorem compaction_inputs_closed {c : UCmp} (hl : LawfulUCmp c) (o : Pick.Limits) (v : Version)
+    (hv : v.wfB c = true) (src : Nat) (t0 : List Table) (hsub : t0.Sublist (v.lvl src)) (hne : t0 ≠ []) :
+    ∃ cm, Pick.newCompaction c o v src t0 = some cm ∧
+      (∀ t ∈ cm.s0, t ∈ v.lvl src) ∧ (∀ t ∈ cm.s1, t ∈ v.lvl (src + 1)) ∧ (∀ t ∈ t0, t ∈ cm.s0) ∧
+      getRange c cm.s0 = some (cm.imin, cm.imax) ∧
+      (∀ t ∈ cm.s0, c.le cm.imin.ukey t.imin.ukey ∧ c.le t.imax.ukey cm.imax.ukey) ∧
+      (∀ t ∈ v.lvl (src + 1), t.overlapsRange c cm.imin.ukey cm.imax.ukey = true ↔ t ∈ cm.s1) ∧
+      (src = 0 → ∀ x ∈ v.lvl 0, x ∉ cm.s0 → x.overlapsRange c cm.imin.ukey cm.imax.ukey = false) := by
+  have hw := (Version.wfB_iff_WFi hl v).1 hv
+  obtain ⟨cm, hcm⟩ := Pick.newCompaction_isSome hl o v hw src t0 hsub hne
+  obtain ⟨hin, hrng, _, hkeep, _⟩ := Pick.newCompaction_ok hl o v hw src t0 hsub hne cm hcm
+  exact ⟨cm, hcm, hin.src_sub, hin.dst_sub, hkeep, hrng, hin.range, hin.dst_all, hin.src_closed⟩
+
+/-- … for every way `pickCompaction` picks (score based: the first table after the compaction pointer, else
+the first table; seek based: the table recorded in `v.cSeek`, which is a table of `v`) -/
+theorem pick_compaction_inputs_closed {c : UCmp} (hl : LawfulUCmp c) (o : Pick.Limits) (v : Version)
+    (hv : v.wfB c = true) (p : Pick.PickState) (hseek : ∀ lvl t, p.cSeek = some (lvl, t) → t ∈ v.lvl lvl)
+    (src : Nat) (t0 : List Table) (hpick : Pick.pickInputs c v p = some (src, t0)) :
+    ∃ cm, Pick.pickCompaction c o v p = some cm ∧ cm.sourceLevel = src ∧
+      (∀ t ∈ cm.s0, t ∈ v.lvl src) ∧ (∀ t ∈ cm.s1, t ∈ v.lvl (src + 1)) ∧ (∀ t ∈ t0, t ∈ cm.s0) ∧
+      (∀ t ∈ cm.s0, c.le cm.imin.ukey t.imin.ukey ∧ c.le t.imax.ukey cm.imax.ukey) ∧
+      (∀ t ∈ v.lvl (src + 1), t.overlapsRange c cm.imin.ukey cm.imax.ukey = true ↔ t ∈ cm.s1) ∧
+      (src = 0 → ∀ x ∈ v.lvl 0, x ∉ cm.s0 → x.overlapsRange c cm.imin.ukey cm.imax.ukey = false) := by
+  obtain ⟨hsub, hne, _⟩ := Pick.pickInputs_ok c v p hseek src t0 hpick
+  obtain ⟨cm, hcm, h1, h2, h3, _, h5, h6, h7⟩ := compaction_inputs_closed hl o v hv src t0 hsub hne
+  refine ⟨cm, ?_, (Pick.newCompaction_cursorInv c o v src t0 cm hcm []).2.1, h1, h2, h3, h5, h6, h7⟩
+  unfold Pick.pickCompaction
+  rw [hpick]; exact hcm
+
+/-- … and for `getCompactionRange` (`CompactRange`; bounds may be nil; the source-size limit may cut the
+level-`src` set short when `src > 0`) -/
+theorem range_compaction_inputs_closed {c : UCmp} (hl : LawfulUCmp c) (o : Pick.Limits) (v : Version)
+    (hv : v.wfB c = true) (src : Nat) (umin umax : Option Bytes) (noLimit : Bool) (t0 : List Table)
+    (hr : Pick.rangeInputs c o v src umin umax noLimit = some t0) :
+    ∃ cm, Pick.getCompactionRange c o v src umin umax noLimit = some cm ∧ cm.sourceLevel = src ∧
+      (∀ t ∈ cm.s0, t ∈ v.lvl src) ∧ (∀ t ∈ cm.s1, t ∈ v.lvl (src + 1)) ∧ (∀ t ∈ t0, t ∈ cm.s0) ∧
+      (∀ t ∈ cm.s0, c.le cm.imin.ukey t.imin.ukey ∧ c.le t.imax.ukey cm.imax.ukey) ∧
+      (∀ t ∈ v.lvl (src + 1), t.overlapsRange c cm.imin.ukey cm.imax.ukey = true ↔ t ∈ cm.s1) ∧
+      (src = 0 → ∀ x ∈ v.lvl 0, x ∉ cm.s0 → x.overlapsRange c cm.imin.ukey cm.imax.ukey = false) := by
+  obtain ⟨hsub, hne⟩ := Pick.rangeInputs_ok c o v src umin umax noLimit t0 hr
+  obtain ⟨cm, hcm, h1, h2, h3, _, h5, h6, h7⟩ := compaction_inputs_closed hl o v hv src t0 hsub hne
+  refine ⟨cm, ?_, (Pick.newCompaction_cursorInv c o v src t0 cm hcm []).2.1, h1, h2, h3, h5, h6, h7⟩
+  unfold Pick.getCompactionRange
+  rw [hr]; exact hcm
+
+/-- hence: a compaction built by `newCompaction` whose *output* is a legal cut of the builder output keeps the
+version well formed — no hypothesis about the inputs is left -/
+theorem picked_compaction_preserves_wf {c : UCmp} (hl : LawfulUCmp c) (o : Pick.Limits) (v : Version)
+    (hv : v.wfB c = true) (src : Nat) (t0 : List Table) (hsub : t0.Sublist (v.lvl src)) (hne : t0 ≠ [])
+    (cm : Pick.Compaction) (hcm : Pick.newCompaction c o v src t0 = some cm) (nts : List Table) (minSeq : Nat)
+    (hdistinct : ((cm.s0 ++ cm.s1).flatMap (·.entries)).Pairwise (fun a b => a.key ≠ b.key))
+    (hcut : legalCut c (build c minSeq (baseLevelForKey c v src) {} (mergeAll c (cm.s0 ++ cm.s1)))
+      (nts.map (·.entries)) = true)
+    (hnew : ∀ t ∈ nts, t.wfB c = true) :
+    CompactionOK c v src cm.s0 cm.s1 nts minSeq cm.imin.ukey cm.imax.ukey ∧
+    (v.apply c (replaceEdit src cm.s0 cm.s1 nts)).wfB c = true := by
+  have hok := Pick.compactionOK_of_built hl o v ((Version.wfB_iff_WFi hl v).1 hv) src t0 hsub hne cm hcm nts
+    minSeq hdistinct hcut hnew
+  exact ⟨hok, compaction_preserves_wf hl v src cm.s0 cm.s1 nts minSeq _ _ hv hok⟩
+
+def lim (n : Nat) : Pick.Limits := ⟨fun _ => n, fun _ => n, fun _ => n⟩
+
+/-- non-vacuity on the 3-level `exV`: a level-0 compaction started from `A` alone (`[1]..[2]`) is closed to
+`{A, B}` (`B = [1]..[3]` overlaps `A`), picks up `C` (`[1]..[2]`) but not `D` (`[5]`) at level 1, and has `F` as
+grandparent; the result is the compaction of the example `CompactionOK` above -/
+example :
+    (Pick.newCompaction bytewise (lim 100) exV 0 [tA]).map (·.chosen) =
+      some ⟨[tA, tB], [tC], mkIKey [1] 7 0, mkIKey [3] 4 1, [tF]⟩ := by decide
+example : [tA].Sublist (exV.lvl 0) := by decide
+/-- score-based pick at level 1 with the compaction pointer at `C`'s largest key: `D` is chosen; without a
+pointer, `C`; seek-based: the recorded table -/
+example : Pick.pickInputs bytewise exV ⟨true, 1, [none, some tC.imax], none⟩ = some (1, [tD]) ∧
+    Pick.pickInputs bytewise exV ⟨true, 1, [], none⟩ = some (1, [tC]) ∧
+    Pick.pickInputs bytewise exV ⟨true, 1, [none, some tD.imax], none⟩ = some (1, [tC]) ∧
+    Pick.pickInputs bytewise exV ⟨false, 0, [], some (1, tD)⟩ = some (1, [tD]) ∧
+    Pick.pickInputs bytewise exV ⟨false, 0, [], none⟩ = none := by decide
+/-- `CompactRange(nil, [2])` at level 1 -/
+example : Pick.rangeInputs bytewise (lim 100) exV 1 none (some [2]) true = some [tC] := by decide
+
+/-! ### the "grow the source level" step
+
+level 1 = {G1 = `[1]..[2]`, G2 = `[3]..[4]`}, level 2 = {H = `[1]..[4]`}, level 3 = {K = `[2]..[2]`}.  Started from
+`G1`, the level-2 set is `{H}`; the whole range `[1]..[4]` also covers `G2` at level 1 and adding it does not
+change the level-2 set: with a generous limit the compaction grows to `{G1, G2}`, with a tight one it does not. -/
+
+def tG1 : Table := ⟨11, 10, [e 1 15 1 0x11, e 2 16 1 0x12], mkIKey [1] 15 1, mkIKey [2] 16 1⟩
+def tG2 : Table := ⟨12, 10, [e 3 17 1 0x13, e 4 18 1 0x14], mkIKey [3] 17 1, mkIKey [4] 18 1⟩
+def tH : Table := ⟨13, 10, [e 1 11 1 0x21, e 4 12 1 0x24], mkIKey [1] 11 1, mkIKey [4] 12 1⟩
+def tK : Table := ⟨14, 10, [e 2 1 1 0x32], mkIKey [2] 1 1, mkIKey [2] 1 1⟩
+def exG : Version := ⟨[[], [tG1, tG2], [tH], [tK]]⟩
+
+example : exG.wfB bytewise = true := by decide
+example :
+    (Pick.newCompaction bytewise (lim 100) exG 1 [tG1]).map (·.chosen) =
+      some ⟨[tG1, tG2], [tH], mkIKey [1] 15 1, mkIKey [4] 18 1, [tK]⟩ ∧
+    (Pick.newCompaction bytewise (lim 20) exG 1 [tG1]).map (·.chosen) =
+      some ⟨[tG1], [tH], mkIKey [1] 15 1, mkIKey [2] 16 1, [tK]⟩ := by decide
+
+/-! ### where the builder cuts (`tableCompactionBuilder.run`: `shouldStopBefore`, `needFlush`)
+
+Model: `Pick.cutStep`, `Pick.cutRun`, `Pick.runTables` (`GoLevel/Model/Pick.lean`); proofs: `GoLevel/Proofs/PickCut.lean`. -/
+
+/-- **`builder_cut_legal`** (L2 derived from the code).  For a compaction fresh from `newCompaction` on a
+well-formed version, the tables `run` writes for the merged input — rotating only at the first occurrence of a
+user key, when `shouldStopBefore` (grandparent overlap) or `needFlush` (any size predicate) ask for it, and
+dropping entries with the *stateful* `baseLevelForKey` — are a legal cut of the model builder's output. -/
+theorem builder_cut_legal {c : UCmp} (hl : LawfulUCmp c) (o : Pick.Limits) (v : Version) (hv : v.wfB c = true)
+    (src : Nat) (t0 : List Table) (cm : Pick.Compaction) (hcm : Pick.newCompaction c o v src t0 = some cm)
+    (minSeq : Nat) (needFlush : List Entry → Bool)
+    (hdistinct : ((cm.s0 ++ cm.s1).flatMap (·.entries)).Pairwise (fun a b => a.key ≠ b.key)) :
+    legalCut c (build c minSeq (baseLevelForKey c v src) {} (mergeAll c (cm.s0 ++ cm.s1)))
+      (Pick.runTables c minSeq needFlush cm (mergeAll c (cm.s0 ++ cm.s1))) = true :=
+  Pick.runTables_legal hl o v ((Version.wfB_iff_WFi hl v).1 hv) src t0 cm hcm minSeq needFlush _
+    (Pick.ukeys_sorted_of_ESorted hl _ (mergeAll_sorted hl _ hdistinct))
+
+/-- **`run_compaction_ok`**: all of `CompactionOK` from the code's logic.  What remains as hypotheses are facts
+about other layers: the input tables hold no internal key twice (`UniqSeq` of the version), and the table
+writer records each output table's exact bounds and order (`Table.wfB`, C13). -/
+theorem run_compaction_ok {c : UCmp} (hl : LawfulUCmp c) (o : Pick.Limits) (v : Version) (hv : v.wfB c = true)
+    (src : Nat) (t0 : List Table) (hsub : t0.Sublist (v.lvl src)) (hne : t0 ≠ []) (cm : Pick.Compaction)
+    (hcm : Pick.newCompaction c o v src t0 = some cm) (minSeq : Nat) (needFlush : List Entry → Bool)
+    (nts : List Table)
+    (hnts : nts.map (·.entries) = Pick.runTables c minSeq needFlush cm (mergeAll c (cm.s0 ++ cm.s1)))
+    (hnew : ∀ t ∈ nts, t.wfB c = true)
+    (hdistinct : ((cm.s0 ++ cm.s1).flatMap (·.entries)).Pairwise (fun a b => a.key ≠ b.key)) :
+    CompactionOK c v src cm.s0 cm.s1 nts minSeq cm.imin.ukey cm.imax.ukey ∧
+    (v.apply c (replaceEdit src cm.s0 cm.s1 nts)).wfB c = true :=
+  picked_compaction_preserves_wf hl o v hv src t0 hsub hne cm hcm nts minSeq hdistinct
+    (by rw [hnts]; exact builder_cut_legal hl o v hv src t0 cm hcm minSeq needFlush hdistinct) hnew
+
+/-- non-vacuity on `exV`, level-0 compaction from `A`, `minSeq = 5`, a table is "full" with two entries: the
+output `[1]@7 [1]@5 [2]@6 [2]@3 [3]@4` is cut before `[2]` and before `[3]`, never between the two `[1]` or the two
+`[2]`; with a grandparent-overlap limit of 0 and no size limit, `shouldStopBefore` alone cuts once the
+grandparent `F = [2]..[2]` has been passed (before `[3]`) -/
+example :
+    (Pick.newCompaction bytewise (lim 100) exV 0 [tA]).map (fun cm =>
+      Pick.runTables bytewise 5 (fun tw => decide (tw.length ≥ 2)) cm (mergeAll bytewise (cm.s0 ++ cm.s1))) =
+      some [[e 1 7 0 0, e 1 5 1 0xa1], [e 2 6 1 0xb2, e 2 3 1 0xb0], [e 3 4 1 0xc1]] ∧
+    (Pick.newCompaction bytewise (lim 0) exV 0 [tA]).map (fun cm =>
+      Pick.runTables bytewise 5 (fun _ => false) cm (mergeAll bytewise (cm.s0 ++ cm.s1))) =
+      some [[e 1 7 0 0, e 1 5 1 0xa1, e 2 6 1 0xb2, e 2 3 1 0xb0], [e 3 4 1 0xc1]] := by decide
+
+/-- **`trivial_move_ok`** (P3).  If `trivial()` holds for a compaction built by `newCompaction` on a well-formed
+version — one level-`src` input, no level-`src+1` input, grandparent overlap within the limit — then that
+single table overlaps nothing at level `src+1` (and, for `src = 0`, nothing else at level 0), i.e. the
+hypotheses of `trivial_move_preserves_wf` hold, and moving it down keeps the version well formed. -/
+theorem trivial_move_ok {c : UCmp} (hl : LawfulUCmp c) (o : Pick.Limits) (v : Version) (hv : v.wfB c = true)
+    (src : Nat) (t0 : List Table) (hsub : t0.Sublist (v.lvl src)) (hne : t0 ≠ []) (cm : Pick.Compaction)
+    (hcm : Pick.newCompaction c o v src t0 = some cm) (htriv : cm.trivial = true) :
+    ∃ t, cm.s0 = [t] ∧ cm.s1 = [] ∧ (∀ x ∈ t0, x = t) ∧ t ∈ v.lvl src ∧
+      (∀ x ∈ v.lvl (src + 1), x.overlapsRange c t.imin.ukey t.imax.ukey = false) ∧
+      (src = 0 → ∀ x ∈ v.lvl 0, x ≠ t → x.overlapsRange c t.imin.ukey t.imax.ukey = false) ∧
+      (v.apply c (replaceEdit src [t] [] [t])).wfB c = true :=
+  Pick.trivial_move_wf_of_built hl o v hv src t0 hsub hne cm hcm htriv
+
+/-- non-vacuity on `exV`: the compaction picked from `D` at level 1 is trivial (`D = [5]` meets nothing at
+level 2, no grandparents); the one picked from `C` is not (`F = [2]` at level 2 overlaps `C`); nor is the
+level-0 one from `A` -/
+example :
+    (Pick.newCompaction bytewise (lim 100) exV 1 [tD]).map (fun cm => (cm.s0, cm.s1, cm.trivial)) =
+      some ([tD], [], true) ∧
+    (Pick.newCompaction bytewise (lim 100) exV 1 [tC]).map (fun cm => (cm.s0, cm.s1, cm.trivial)) =
+      some ([tC], [tF], false) ∧
+    (Pick.newCompaction bytewise (lim 100) exV 0 [tA]).map (·.trivial) = some false ∧
+    (exV.apply bytewise (replaceEdit 1 [tD] [] [tD])).wfB bytewise = true := by decide
+/-- too much grandparent overlap also makes a single-table compaction non-trivial (`K`, 10 bytes, against a
+limit of 5) -/
+example :
+    (Pick.newCompaction bytewise (lim 100) ⟨[[], [tG1], [], [tK]]⟩ 1 [tG1]).map (fun cm => (cm.gp, cm.trivial)) =
+      some ([tK], true) ∧
+    (Pick.newCompaction bytewise (lim 5) ⟨[[], [tG1], [], [tK]]⟩ 1 [tG1]).map (fun cm => (cm.gp, cm.trivial)) =
+      some ([tK], false) := by decide
+
 end GoLevel.C06
 
 def GoLevel.C06.theorems : List String :=
@@ -269,4 +455,7 @@ def GoLevel.C06.theorems : List String :=
    "GoLevel.C06.flush_preserves_wf", "GoLevel.C06.compaction_preserves_wf",
    "GoLevel.C06.replace_preserves_wf", "GoLevel.C06.getRange_bounds",
    "GoLevel.C06.trivial_move_preserves_wf", "GoLevel.C06.getOverlapsSorted_spec",
-   "GoLevel.C06.getOverlapsL0_spec"]
+   "GoLevel.C06.getOverlapsL0_spec", "GoLevel.C06.compaction_inputs_closed",
+   "GoLevel.C06.pick_compaction_inputs_closed", "GoLevel.C06.range_compaction_inputs_closed",
+   "GoLevel.C06.picked_compaction_preserves_wf", "GoLevel.C06.builder_cut_legal",
+   "GoLevel.C06.run_compaction_ok", "GoLevel.C06.trivial_move_ok"]
